@@ -1040,6 +1040,7 @@ type cgen struct {
 	c     *hx.Ctx
 	r     *hx.Rng
 	names map[string]int
+	wide  bool // order cases: 2..5 elements in every order-sensitive list, extend types from a small unsorted pool
 }
 
 var boundaryDur = []time.Duration{0, 1, 1500 * time.Microsecond, time.Second, 90 * time.Second, time.Hour, 15 * time.Minute, 1<<63 - 1}
@@ -1122,6 +1123,10 @@ func (g *cgen) fill(v reflect.Value, owner reflect.Type, field string, depth int
 			v.SetString(fmt.Sprintf("127.0.0.1:%d", 8000+g.names["host"]))
 			g.names["host"]++
 		case "ExtendConfig.Type":
+			if g.wide {
+				v.SetString(r.PickS(orderExtTypes)) // repeated on purpose, never in alphabetical order as a pool
+				return
+			}
 			v.SetString(g.uniq("ext"))
 		case "VirtualHost.Name":
 			v.SetString(g.uniq("vh"))
@@ -1174,6 +1179,9 @@ func (g *cgen) fill(v reflect.Value, owner reflect.Type, field string, depth int
 			return
 		case "FilterChainConfig.TLSConfigs", "MOSNConfig.Wasms":
 			n = 0
+		}
+		if g.wide && orderWide[key] {
+			n = 2 + r.Intn(4)
 		}
 		if n == 0 {
 			return
@@ -1293,4 +1301,5 @@ func Run(c *hx.Ctx) {
 	dynPairs(c, tmp, c.N(400, 6000))
 	dyns(c, tmp, c.N(240, 3000))
 	dynUpds(c, c.N(150, 1500))
+	orders(c, tmp, c.N(300, 4000))
 }
